@@ -7,6 +7,11 @@ from symx import build
 
 def main():
     mode = sys.argv[1] if len(sys.argv) > 1 else 'onel'
+    if mode == 'decoupling':
+        from . import C10d
+        rc, lines = C10d.native_decoupling()
+        print('\n'.join(lines) if lines else 'all decoupling ratios <= 0.45 (or below the rounding floor)')
+        sys.exit(1 if rc == 1 else 0)
     if mode == 'dxlog':
         import mpmath
         sys.path.insert(0, os.path.dirname(os.path.dirname(os.path.abspath(__file__))))
